@@ -336,12 +336,12 @@ func c27walk(b []byte, toks *[][]byte) bool {
 // what any sender, including one that never talked to the server, can
 // produce. cids collects the destination connection IDs seen in the client's
 // Initial packets: the keys come from the first one, or from the first one
-// after a Retry. The added header bytes are taken out of the trailing PADDING
-// frames of the packet when there are any, so a padded datagram keeps its
-// size. Packets that cannot be opened are passed through unchanged.
+// after a Retry. The added header bytes are taken out of the padding (trailing PADDING
+// frames of the packet, zero bytes behind the last packet) when there is any,
+// so a padded datagram keeps its size. Packets that cannot be opened are passed through unchanged.
 func c27Retoken(b []byte, mode string, cids *[][]byte) ([]byte, int) {
 	var out []byte
-	changed := 0
+	changed, grown := 0, 0
 	rest := b
 	for len(rest) > 0 {
 		if !isLongHeader(rest[0]) || getPacketType(rest) == packetTypeVersionNegotiation {
@@ -409,12 +409,18 @@ func c27Retoken(b []byte, mode string, cids *[][]byte) ([]byte, int) {
 			pay = pay[:len(pay)-1]
 			grow--
 		}
+		grown += max(grow, 0)
 		plen := pnumLen + len(pay) + 16
 		hdr = append(hdr, 0x40|byte(plen>>8), byte(plen))
 		pnumOff := len(hdr)
 		hdr = append(hdr, pnumBytes...)
 		out = append(out, keys.protect(hdr, append([]byte(nil), pay...), pnumOff, p.num)...)
 		changed++
+	}
+	// (the client pads its Initial datagrams with zero bytes behind the last packet)
+	for grown > 0 && len(rest) > 0 && rest[0] == 0 && rest[len(rest)-1] == 0 {
+		rest = rest[:len(rest)-1]
+		grown--
 	}
 	out = append(out, rest...)
 	if changed == 0 {
@@ -437,6 +443,7 @@ var c27Kinds = []c19Dev{
 	{Kind: "drop"}, {Kind: "dup"}, {Kind: "hold1"}, {Kind: "late"},
 	{Kind: "trunc", Arg: 1199}, {Kind: "trunc", Arg: 600}, {Kind: "trunc", Arg: 100}, {Kind: "trunc", Arg: 1},
 	{Kind: "spoof"},
+	{Kind: "dead"}, // the client is silent from this datagram on (nothing is delivered in either direction any more; the server's writes are still counted)
 }
 
 func c27Report(w *vx.W, cs c27Case, r *c27Run) {
@@ -536,7 +543,7 @@ func TestVerif_C27(t *testing.T) {
 			c27Report(w, cs, r)
 		}
 		opts := vx.Opts{Serial: true, Crumb: true}
-		kinds3 := []c19Dev{{Kind: "drop"}, {Kind: "late"}, {Kind: "trunc", Arg: 600}, {Kind: "trunc", Arg: 100}, {Kind: "spoof"}}
+		kinds3 := []c19Dev{{Kind: "drop"}, {Kind: "late"}, {Kind: "trunc", Arg: 600}, {Kind: "trunc", Arg: 100}, {Kind: "spoof"}, {Kind: "dead"}}
 		multi := func(part string, k int, scs []c27Scn, kinds []c19Dev) {
 			vx.Enumerate(c, part, opts, c19Sharded(c, func(yield func(c27Case) bool) {
 				for _, sc := range scs {
@@ -548,6 +555,9 @@ func TestVerif_C27(t *testing.T) {
 						}
 						for at := from; at < n; at++ {
 							for _, kd := range kinds {
+								if kd.Kind == "dead" && len(devs) != k-1 {
+									continue // nothing is delivered after it: only as the last deviation
+								}
 								kd.At = at
 								if !rec(append(devs, kd), at+1) {
 									return false
@@ -579,7 +589,7 @@ func TestVerif_C27(t *testing.T) {
 		multi("k1", 1, scns, c27Kinds)
 		kinds2 := c27Kinds
 		if c.Quick() {
-			kinds2 = []c19Dev{{Kind: "drop"}, {Kind: "dup"}, {Kind: "late"}, {Kind: "trunc", Arg: 600}, {Kind: "spoof"}}
+			kinds2 = []c19Dev{{Kind: "drop"}, {Kind: "dup"}, {Kind: "late"}, {Kind: "trunc", Arg: 600}, {Kind: "spoof"}, {Kind: "dead"}}
 		}
 		multi("k2-small", 2, smallS, kinds2)
 		if kBig >= 2 {
